@@ -119,7 +119,25 @@ def build_jobs(rng, quick, nrandom):
                 calls.append({"fn": fn["n"], "named": {k: ({"f": float(v).hex()} if isinstance(v, float) else v) for k, v in named.items()},
                               "args": [named[a["n"]] for a in fn["args"]], "types": [a["t"] for a in fn["args"]], "ret": fn["ret"]})
         jobs.append({"kind": kind, "src": text, "calls": calls, "module": m})
-    return jobs
+    # one Compiler object used for several sources: the module emitted for the last one is held to the same standard (valid, agreeing with the VM, equal to the
+    # generator model's output) whatever the object compiled before -- refused programs, supported ones, helpers whose mangled names coincide
+    befores = ["export function q1(float a, int b) -> float { return a * b; }",
+               "export function q2(int a) -> int { int t = a; t = t + 1; return t; }",
+               "export function q3(int a, int b) -> int { return a + b; }",
+               "function sq(int x) -> int { return x * x; }\nexport function q4(int a) -> int { return sq(a) + 1; }",
+               "export function q5(int a) -> float { return a; }",
+               "export function q6(float a) -> float { return a + 0.5; }\nexport function q7(int a) -> int { return a * 3; }"]
+    reuse = []
+    for k, j in enumerate(jobs):
+        if k % 8 == 3:
+            reuse.append(dict(j, kind="one-compiler-object:" + j["kind"], before=rng.sample(befores, rng.choice([1, 2, 3]))))
+    from nslgen import Module, Func, Arg, Block, Ret, B, V, Call
+    cube_m = Module([Func("sq", [Arg("int", "x")], "int", Block([Ret(B("*", B("*", V("x"), V("x")), V("x")))])),
+                     Func("cube", [Arg("int", "a")], "int", Block([Ret(Call("sq", [V("a")]))]), export=True)])
+    cube, _ = nslgen.render(cube_m, "canonical", rng)
+    reuse.append({"kind": "one-compiler-object:helper-name-reused", "src": cube, "before": [befores[3]], "module": cube_m,
+                  "calls": [{"fn": "cube", "named": {"a": v}, "args": [v], "types": ["int"], "ret": "int"} for v in (3, -2, 10)]})
+    return jobs + reuse
 
 
 def run_node(ctx, items):
